@@ -121,6 +121,9 @@ structure Block where
   gtol : Float := 1e-9
   db : Array DbSp := #[]
   gmaps : Array (String × Float × Float) := #[]
+  aqz : Array (String × Float) := #[]                       -- charge of aqueous species from the database TEXT
+  inC : Array (String × Float × Float × Float × Float) := #[]  -- first SURFACE block of the input: charge, area, grams, cap0, cap1
+  inS : Array (String × Float) := #[]                       -- … site element, sites
 
 def fh (s : String) : Float := (floatOfHex s).getD (0.0 / 0.0)
 def sh (s : String) : String := (unhexStr s).getD "?"
@@ -282,6 +285,25 @@ def evalBlock (b : Block) (prev : Array (String × Float)) : Array String × Arr
       let elts := d.elts.map fun e => (e.1, e.2, (if siteNames.contains e.1 then (6 : Int) else 0))
       sps2 := sps2.push { sp with rxn := toks, lkdb := lk, z := d.z, cd := if d.hasCd || b.stype == 3 then d.cd else sp.cd, elts := elts }
   let b := { b with sps := sps2 }
+  -- aqueous charges: engine = database text
+  for a in b.aqs do
+    match b.aqz.find? (·.1 == a.name) with
+    | some z => out := out.push (vline b "T" "db-aq-z" a.name (close 1e-12 1e-12 a.z z.2) a.z z.2)
+    | none => pure ()
+  -- first SURFACE block of the input text: area, grams, capacitances, sites as the engine holds them
+  for i in b.inC do
+    match b.charges.find? (·.name == i.1) with
+    | some c =>
+      let (a, g, c0, c1) := i.2
+      if !a.isNaN then out := out.push (vline b "T" "in-area" c.name (close 1e-12 0.0 c.area a) c.area a)
+      if !g.isNaN then out := out.push (vline b "T" "in-grams" c.name (close 1e-12 0.0 c.grams g) c.grams g)
+      if !c0.isNaN then out := out.push (vline b "T" "in-cap0" c.name (close 1e-12 0.0 c.cap0 c0) c.cap0 c0)
+      if !c1.isNaN then out := out.push (vline b "T" "in-cap1" c.name (close 1e-12 0.0 c.cap1 c1) c.cap1 c1)
+    | none => if b.stype != 1 then out := out.push (vline b "T" "in-charge" i.1 false 0 1)   -- (-no_edl keeps no charge structure)
+  for i in b.inS do
+    match sites.find? (·.elt == i.1) with
+    | some u => if b.state == 3 then out := out.push (vline b "T" "in-sites" u.elt (close 1e-12 0.0 u.moles i.2) u.moles i.2)
+    | none => out := out.push (vline b "T" "in-site" i.1 false 0 1)
   let env : Env Float := { tol := relTol, ineqTol := b.ineqTol, minRel := b.minRel, epsr := b.epsr, tk := b.tk, mu := b.mu }
   let tk := b.tk
   -- which charge a site element belongs to
@@ -437,8 +459,15 @@ def evalBlock (b : Block) (prev : Array (String × Float)) : Array String × Arr
             | some g => acc + gz.2 * (g.2.2 + ratio)
             | none => acc) 0.0
           let scale := groups.foldl (fun acc gz => acc + (gz.2 * ratio).abs) sq.abs
-          if sq.abs < 5000.0 then
-            out := out.push (vline b "V" "donnan-neutral" c.name (close 1e-7 (1e-9 * scale) tot (-sq)) tot (-sq))
+          -- a factor that would fall to −ratio is stored as −ratio + G_TOL·1e-3 (donnanG): each clipped group may add that much
+          let clipFloor := groups.foldl (fun acc gz => acc + gz.2.abs * b.gtol * 1e-3) 0.0
+          -- calc_psi_avg sets |p| < G_TOL to 0 and stops: near zero charge its equation is not solved (premise `fd = 0`
+          -- of donnan_charge_neutral does not hold), so the relation is judged only when the model's root is non-zero
+          let pNonZero := match psiAvg sq ratio b.mu b.gtol b.onlyCounter groups with
+            | some p => p != 0.0
+            | none => false
+          if sq.abs < 5000.0 && pNonZero then
+            out := out.push (vline b "V" "donnan-neutral" c.name (close 1e-7 (1e-9 * scale + clipFloor) tot (-sq)) tot (-sq))
       let pubPsi := findOut b s!"psi:{c.name}"
       let pubSig := findOut b s!"sigma:{c.name}"
       let pubMu := (findOut b "mu").getD b.mu
@@ -524,6 +553,9 @@ def run : IO Unit := do
   let mut hist : Array (String × Float) := #[]
   let mut lastCase := ""
   let mut dbs : Array DbSp := #[]
+  let mut zs : Array (String × Float) := #[]
+  let mut ins : Array (List String) := #[]
+  let mut zCase := ""
   let mut dbCase := ""
   for l in lines do
     let ws := words l
@@ -535,11 +567,31 @@ def run : IO Unit := do
       match parseD rest with
       | some d => dbs := dbs.push d
       | none => pure ()
+    | ["Z", c, n, z] =>
+      if c != zCase then
+        zs := #[]
+        ins := #[]
+        zCase := c
+      zs := zs.push (sh n, fh z)
+    | "I" :: c :: rest =>
+      if c != zCase then
+        zs := #[]
+        ins := #[]
+        zCase := c
+      ins := ins.push rest
     | ["B", c, k] =>
       if c != lastCase then
         hist := #[]
         lastCase := c
-      cur := some { case := c, blk := k, db := if c == dbCase then dbs else #[] }
+      let mine := if c == zCase then ins.filter (fun l => l.head? == some k) else #[]
+      let inC := mine.filterMap fun l => match l with
+        | [_, "C", n, a, g, c0, c1] => some (sh n, fh a, fh g, fh c0, fh c1)
+        | _ => none
+      let inS := mine.filterMap fun l => match l with
+        | [_, "S", n, v] => some (sh n, fh v)
+        | _ => none
+      cur := some { case := c, blk := k, db := if c == dbCase then dbs else #[], aqz := if c == zCase then zs else #[],
+                    inC := inC, inS := inS }
     | ["E"] =>
       match cur with
       | some b =>
